@@ -51,8 +51,8 @@ open Py Diff
 /-- **The result depends on the caches only through the pairing**, and its emptiness not even on
 that: two runs with different cache behaviour (hence possibly different pairings) agree on whether
 anything is reported. -/
-theorem C17_result_via_pairing (c : IOCfg) (hashOf : PyVal → String) (P P' : Pairs) (hs : HashSound c hashOf)
-    (hc : c.thrNum ≤ c.thrDen) (a b : PyVal) :
+theorem C17_result_via_pairing (D : PyVal → Prop) (hD : Closed D) (c : IOCfg) (hashOf : PyVal → String) (P P' : Pairs)
+    (hs : HashSoundOn D c hashOf) (hc : c.thrNum ≤ c.thrDen) (a b : PyVal) (da : D a) (db : D b) :
     (P = P' → deepDiff c hashOf P a b = deepDiff c hashOf P' a b) ∧
     ((deepDiff c hashOf P a b).tree = [] ↔ (deepDiff c hashOf P' a b).tree = []) := by
   refine ⟨fun h => by rw [h], ?_⟩
@@ -60,9 +60,9 @@ theorem C17_result_via_pairing (c : IOCfg) (hashOf : PyVal → String) (P P' : P
     intro Q
     unfold deepDiff
     split
-    · exact diffV_empty_iff c hashOf Q hs hc a b []
+    · exact diffV_empty_iff D hD c hashOf Q hs hc a b [] da db
     · simp only [mutualAddRemoves_nil_iff]
-      exact diffV_empty_iff c hashOf Q hs hc a b []
+      exact diffV_empty_iff D hD c hashOf Q hs hc a b [] da db
   exact (h1 P).trans (h1 P').symm
 
 end DiffIO
